@@ -21,7 +21,7 @@ func init() {
 			"(R3) the remaining-work scan answers true exactly for the conditions under which the work loop acts: per branch the same capacity argument is passed to the shrink and to the can-shrink role, the free condition is the same, and both roles compute the same target with opposite comparison polarity; " +
 			"(R4) the shrink target is max(round(len), minimum) with the same rounding function that growth uses, applied to the length itself; the capacity change keeps the live rows (rules C01/R6, C11/R4); " +
 			"(R5) the loop of the storage-level Shrink that calls the table shrink role is a full loop over the table list. " +
-			"(= C04/R14) the active-table list is walked (free flags set) before it is emptied. Not decided: the rounding arithmetic itself; behavioural invisibility for all later operations; convergence of time-boxed calls.",
+			"(= C04/R14) the active-table list is walked (free flags set) before it is emptied. (= C06/R8) no field of a per-iteration or local copy of a table or record is assigned and then dropped (a free flag set on a copy leaves the table to be freed twice). Not decided: the rounding arithmetic itself; behavioural invisibility for all later operations; convergence of time-boxed calls.",
 		TrustedBase: []string{"go/types, go/cfg", "rules C04/R3 and C07/R1", "documented bound: capacity ≤ max(initial capacity, next power of two of size)"},
 		Rules: []Rule{
 			{ID: "C15/R1", Run: c04r3, Min: 1},
@@ -31,6 +31,7 @@ func init() {
 			{ID: "C04/R12", Run: c04r12, Min: 1},
 			{ID: "C15/R5", Run: c15r5, Min: 1},
 			{ID: "C04/R14", Run: c04r14, Min: 1},
+			{ID: "C06/R8", Run: c06r8, Min: 1},
 		},
 	})
 }
